@@ -210,6 +210,10 @@ func (e *Engine) reflectIntrinsic(name string, fn *ssa.Function, a []Val) (Val, 
 		return RV{t: t, v: Slice{arr: e.newArray(et, c), len: n, cap: c}}, true
 	case "reflect.MakeMap", "reflect.MakeMapWithSize":
 		t := a[0].(Iface).v.(RT).t
+		if name == "reflect.MakeMapWithSize" {
+			// the size hint pre-allocates buckets: an allocation like any other
+			e.allocGuard(e.tf.Resize(a[1].(*Term), 64, true), 16)
+		}
 		return RV{t: t, v: &MapObj{epoch: e.epoch, kt: t.Underlying().(*types.Map).Key()}}, true
 	case "reflect.Append":
 		r := a[0].(RV)
